@@ -13,6 +13,7 @@ import (
 	"runtime"
 	"runtime/debug"
 	"strings"
+	"time"
 
 	"github.com/nspcc-dev/neo-go/pkg/core/mpt"
 	"github.com/nspcc-dev/neo-go/pkg/network"
@@ -158,7 +159,7 @@ var binDict = [][]byte{
 }
 
 var textDict = [][]byte{
-	[]byte(`1e100`), []byte(`[1e400]`), []byte(`-1e40`), []byte(`1e3000000`), []byte(`[1e100000000]`), []byte(`123.000`), []byte(`2.8e+22`), []byte(`9007199254740993`),
+	[]byte(`1e100`), []byte(`[1e400]`), []byte(`-1e40`), []byte(`1e3000000`), []byte(`[1e100000000]`), []byte(`1e-400`), []byte(`[1e-300000]`), []byte(`123.000`), []byte(`2.8e+22`), []byte(`9007199254740993`),
 	[]byte(`{"a":1,"a":2}`), rep("[", 11), append(rep("[", 10), rep("]", 10)...), append(rep("[", 11), rep("]", 11)...),
 	[]byte(`{"type":"Integer","value":"1` + strings.Repeat("0", 90) + `"}`),
 	[]byte(`{"type":"Map","value":[{"key":{"type":"Array","value":[]},"value":{"type":"Any"}}]}`),
@@ -221,7 +222,7 @@ var (
 	reStr = regexp.MustCompile(`"(?:[^"\\]|\\.)*"`)
 )
 
-var textToks = []string{`1e100`, `1e400`, `-1e40`, `1e3000000`, `1e100000000`, `123.000`, `2.8e+22`, `9007199254740993`, `18014398509481984`, `-0`, `0.5`, `null`, `true`, `[]`, `{}`, `""`,
+var textToks = []string{`1e100`, `1e400`, `-1e40`, `1e3000000`, `1e100000000`, `1e-400`, `1e-300000`, `-2.5e-300000`, `123.000`, `2.8e+22`, `9007199254740993`, `18014398509481984`, `-0`, `0.5`, `null`, `true`, `[]`, `{}`, `""`,
 	`"*"`, `"1` + strings.Repeat("0", 90) + `"`, `"Integer"`, `"Pointer"`, `"InteropInterface"`, `"Buffer"`, `-1`, `4294967296`, `"\ud800"`, `"\u0000"`, `[[[[[[[[[[[[1]]]]]]]]]]]]`}
 
 func (m *mutState) apply(k *kind, mu Mut) {
@@ -908,8 +909,16 @@ func oracleBytes(k *kind, in []byte, expectReject, origin string, o *vt.Obs) err
 			sur := k.clamp(in)
 			var s1, s2 runtime.MemStats
 			runtime.ReadMemStats(&s1)
+			st0 := time.Now()
 			_, _, serr := safeDec(k, sur)
+			stook := time.Since(st0)
 			runtime.ReadMemStats(&s2)
+			if len(sur) <= 256 && stook > 3*time.Second {
+				if e := vd.fail("hang/"+fam+"-slow", "%s: the decoder's work is driven by a number in the input alone: this %d-byte input asks for %d steps; not executed. Surrogate with the number clamped (%q) took %s", k.name, len(in), n, shortB(sur), stook.Round(time.Millisecond)); e != nil {
+					return e
+				}
+				return nil
+			}
 			var spe *panicError
 			if sa := s2.TotalAlloc - s1.TotalAlloc; sa > uint64(allocConst+allocPerByte*len(sur)) || errors.As(serr, &spe) && false {
 				if e := vd.fail("hang/"+fam, "%s: the decoder's work is driven by a number in the input alone: this %d-byte input asks for %d steps; not executed (found as a hang of the harness, see C17_TRACE). "+
@@ -922,10 +931,21 @@ func oracleBytes(k *kind, in []byte, expectReject, origin string, o *vt.Obs) err
 	}
 	var m1, m2 runtime.MemStats
 	runtime.ReadMemStats(&m1)
+	t0 := time.Now()
 	v, n, err := safeDec(k, in)
+	took := time.Since(t0)
 	runtime.ReadMemStats(&m2)
 	alloc := m2.TotalAlloc - m1.TotalAlloc
 	o.Units(1)
+	// "decoders never hang": a short input that keeps the decoder busy for seconds asks for work that is driven by
+	// a number in it alone. (Wall clock with a wide margin: ordinary decodings of such inputs take microseconds; the
+	// bound is three seconds for at most 256 bytes.)
+	if len(in) <= 256 && took > 3*time.Second {
+		if e := vd.fail("hang/"+fam+"-slow", "%s: decoding %d bytes took %s (accepted=%v): the work is driven by a number in the input alone; input %q", k.name, len(in), took.Round(time.Millisecond), err == nil, shortB(in)); e != nil {
+			return e
+		}
+		return nil
+	}
 	var pe *panicError
 	if errors.As(err, &pe) {
 		if e := vd.fail(pe.key(fam), "%s: decoder panics on %d bytes %x: %v", k.name, len(in), shortB(in), pe); e != nil {
